@@ -378,9 +378,9 @@ fn run_family(seed: u64, f: u64, q_per_fam: usize) -> FamOut {
     let mut out = FamOut { evals: 0, fat_evals: 0, shared_evals: 0, shuffled_evals: 0, nonempty: 0, shapes: BTreeSet::new(), counts: [0; simdoc::N_ACC], by_pers: [0; 16], errs: 0, first: None, n_viol: 0, sample: None, classes: BTreeMap::new() };
     let mut rng = Rng::new(derive(seed, "c15fam", f));
     let p = match f % 11 {
-        3 => DocParams { max_nodes: 60 + rng.below(60), max_depth: 2 + rng.below(2), names: gen::NAMES_C15, max_width: 14, long_arrays: true },
-        7 => DocParams { max_nodes: 40 + rng.below(40), max_depth: 8 + rng.below(6), names: gen::NAMES_C15, max_width: 3, long_arrays: false },
-        _ => DocParams { max_nodes: 8 + rng.below(23), max_depth: 1 + rng.below(4), names: gen::NAMES_C15, max_width: 4, long_arrays: true },
+        3 => DocParams { max_nodes: 60 + rng.below(60), max_depth: 2 + rng.below(2), names: gen::NAMES_C15, max_width: 14, long_arrays: true, mixed_names: false },
+        7 => DocParams { max_nodes: 40 + rng.below(40), max_depth: 8 + rng.below(6), names: gen::NAMES_C15, max_width: 3, long_arrays: false, mixed_names: false },
+        _ => DocParams { max_nodes: 8 + rng.below(23), max_depth: 1 + rng.below(4), names: gen::NAMES_C15, max_width: 4, long_arrays: true, mixed_names: false },
     };
     let mut base = gen::gen_doc(&mut rng, &p);
     if f % 5 == 0 {
